@@ -326,15 +326,15 @@ func keys(m map[string]bool) []string {
 }
 
 func TestC03LookupPrefix(t *testing.T) {
-	hx.Check(t, hx.Scale(12000, 600000), func(t *rapid.T) { checkLookup(t, "prefix") })
+	hx.Check(t, hx.Scale(50000, 600000), func(t *rapid.T) { checkLookup(t, "prefix") })
 }
 
 func TestC03LookupIPrefix(t *testing.T) {
-	hx.Check(t, hx.Scale(12000, 600000), func(t *rapid.T) { checkLookup(t, "iprefix") })
+	hx.Check(t, hx.Scale(50000, 600000), func(t *rapid.T) { checkLookup(t, "iprefix") })
 }
 
 func TestC03LookupGlob(t *testing.T) {
-	hx.Check(t, hx.Scale(12000, 600000), func(t *rapid.T) { checkLookup(t, "glob") })
+	hx.Check(t, hx.Scale(50000, 600000), func(t *rapid.T) { checkLookup(t, "glob") })
 }
 
 // LookupHost is what the tcp, tcp+sni and tcp-dynamic listeners use: the
